@@ -382,6 +382,10 @@ func (e *Engine) Generate(prop, tier string, seed uint64, run int) *sim.Plan {
 		add("push", order[1], nil)
 		add("pull", order[2], nil)
 		add("push", order[2], nil)
+		// the first one fast-forwards to the others' merge commits and edits on top of them
+		add("pull", order[0], nil)
+		edit(order[0])
+		add("push", order[0], nil)
 		p.Cfg["closing_motif"] = true
 	}
 	if prop == "C15" && sim.NewRand(sim.Mix(rs, 0xC15E)).Chance(0.3) {
